@@ -36,3 +36,34 @@ impl<L: Language> Analysis<L> for MinDepth {
         l.min(r)
     }
 }
+
+/// an analysis whose `modify` hook asserts equations itself: w(w(x)) = x over the Core language.  The hook unions the class it
+/// is called on - possibly the class an insertion is creating at that moment - with an older class that has slots.
+#[derive(Default, Clone, Copy)]
+pub struct WrapElim;
+
+impl Analysis<crate::langs::Core> for WrapElim {
+    type Data = ();
+    fn make(_eg: &EGraph<crate::langs::Core, Self>, _enode: &crate::langs::Core) {}
+    fn merge(_l: (), _r: ()) {}
+    fn modify(eg: &mut EGraph<crate::langs::Core, Self>, id: Id) {
+        use crate::langs::Core;
+        let mut inner: Vec<AppliedId> = Vec::new();
+        for n in eg.enodes(id) {
+            if let Core::W(c) = &n {
+                for m in eg.enodes_applied(c) {
+                    if let Core::W(g) = &m {
+                        inner.push(g.clone());
+                    }
+                }
+            }
+        }
+        if inner.is_empty() {
+            return;
+        }
+        let me = eg.mk_identity_applied_id(id);
+        for g in inner {
+            eg.union(&me, &g);
+        }
+    }
+}
